@@ -116,7 +116,7 @@ class Runner:
         if self.variant["san"] == "asan":
             e.setdefault("ASAN_OPTIONS", "detect_leaks=0:abort_on_error=0:allocator_may_return_null=1")
             e.setdefault("UBSAN_OPTIONS", "print_stacktrace=0")
-        cout = run_side(self.harness, cases, timeout_case, e, shard)
+        cout = self._retry_timeouts(cases, run_side(self.harness, cases, timeout_case, e, shard), timeout_case, e)
         self.c_time += time.time() - t
         t = time.time()
         # the models of the cache-dependent routes take the build's PLE cut-off (words) from the environment
@@ -129,7 +129,18 @@ class Runner:
         e = dict(env or {})
         if self.variant["san"] == "asan":
             e.setdefault("ASAN_OPTIONS", "detect_leaks=0:abort_on_error=0:allocator_may_return_null=1")
-        return run_side(self.harness, cases, timeout_case, e, shard)
+        return self._retry_timeouts(cases, run_side(self.harness, cases, timeout_case, e, shard), timeout_case, e)
+
+    def _retry_timeouts(self, cases, out, timeout_case, env):
+        """A per-case wall-clock limit on a loaded machine can expire for a call that is not hanging: every case that
+        timed out (or produced no output) is run again alone with six times the limit; only a repeated TIMEOUT stands."""
+        again = [c for c in cases if out.get(c.id) is None or out[c.id][0] in ("TIMEOUT", "MISSING")]
+        if again and len(again) <= 40:
+            out2 = run_side(self.harness, again, 6 * timeout_case, env, 1)
+            for c in again:
+                if out2.get(c.id) is not None:
+                    out[c.id] = out2[c.id]
+        return out
 
 
 def run_model(cases, shard=vlib.NPROC):
